@@ -28,8 +28,18 @@ def gen_lt(rng):
     """(rate, accel, T) with |rate_k| <= 2^31-1 for k = 1..T; families hit the boundaries of the clear rule."""
     for _ in range(100):
         T = pick_T(rng)
-        fam = rng.choice(["zero_first_tick", "edge", "small", "uniform", "const", "boundary_total", "double_band"])
-        if fam == "double_band":
+        fam = rng.choice(["zero_first_tick", "edge", "small", "uniform", "const", "boundary_total", "double_band", "wide_accel"])
+        if fam == "wide_accel":
+            # an acceleration that does not fit in 32 bits (2^31 <= |accel| < 2^32) on a move of one or two ticks whose rates are in
+            # range: the start rate has the opposite sign; even, odd and power-of-two values
+            T = rng.choice([1, 1, 2])
+            mag = rng.choice([B, B + 1, B + 2, 2 * M, 2 * M - 1, 2 * M - 2, rng.randint(B, 2 * M), 2 * rng.randint(B // 2, M)])
+            accel = rng.choice([1, -1]) * mag
+            sgn = 1 if accel > 0 else -1
+            if T == 1: r1 = rng.randint(-M, M)
+            else: r1 = -sgn * rng.randint(mag - M, M)            # r1 and r1 + accel both in range
+            rate = r1 - accel + tq(accel, 2)
+        elif fam == "double_band":
             # totals of 2^51 .. 2^55 accumulator units with half-integer intermediate terms (odd accel, odd tick count): the band in which
             # double-precision arithmetic starts to lose the last bit while the result still looks plausible
             T = rng.randint(2**19, 2**24) | rng.choice([1, 1, 1, 0])
